@@ -79,7 +79,7 @@ def gen_plan(seed, tier="quick"):
     plan = {"engine": "busim", "property": PROP, "seed": seed, "kind": kind, "fault": None,
             "dtr": [r.randrange(256) for _ in range(3)], "addr": r.randrange(64), "inst": r.randrange(32)}
     if r.random() < 0.3:
-        plan["fault"] = [r.randrange(0, 10 if kind != "scan" else 60), r.choice(["drop", "garble"])]
+        plan["fault"] = [r.randrange(0, 10 if kind != "scan" else 60), r.choice(["drop", "garble", "garble", "garble-same"])]
     if kind == "input":
         res_ = r.choice([1, 2, 7, 8, 9, 10, 12, 15, 16, 17, 20, 23, 24, 25, 31, 32, r.randrange(1, 33)])
         plan["resolution"] = res_
@@ -282,11 +282,19 @@ def run_plan(plan):
         by_addr = {}
         for dd in plan["devices"]:
             by_addr.setdefault(dd["short"], []).append(dd)
-        touched = set()
+        # a missing or garbled answer leads to a *skip*: of the whole device when
+        # a device-level query (status, number of instances) was hit, of that one
+        # instance when an instance-level query (enabled, type) was hit
+        touched = set()                 # addresses where two devices collide: anything consistent is accepted
+        skip_dev, skip_inst = set(), set()
         for c in fired:
             f = c[1].frame.as_integer
             if (f >> 23) == 0:
-                touched.add((f >> 17) & 0x3F)
+                a, ib = (f >> 17) & 0x3F, (f >> 8) & 0xFF
+                if ib == 0xFE:
+                    skip_dev.add(a)
+                else:
+                    skip_inst.add((a, ib & 0x1F))
         expect = {}
         for a, lst in by_addr.items():
             if a not in scanned:
@@ -299,8 +307,10 @@ def run_plan(plan):
             if dd["status"] & 0x44:
                 probes["scan-reset-state"] = 1
                 continue
+            if a in skip_dev:
+                continue
             for n, (t, e) in enumerate(dd["instances"]):
-                if e:
+                if e and (a, n) not in skip_inst:
                     expect[(a, n)] = t
                 else:
                     probes["scan-disabled-instance"] = 1
@@ -317,8 +327,10 @@ def run_plan(plan):
                 if k not in expect or expect[k] != t:
                     if k[0] in touched and k in expect and expect[k] == t:
                         continue
-                    V("wrong-scan-entry", "mapping has %s -> %s, bus has %s (fault %s)" % (
-                        k, t, expect.get(k), plan["fault"]), site="faulted" if k[0] in touched else "fault-free")
+                    V("wrong-scan-entry", "mapping has %s -> %s, expected %s (fault %s%s)" % (
+                        k, t, expect.get(k), plan["fault"],
+                        ": the device's status / instance-count answer was lost, it has to be skipped" if k[0] in skip_dev else ""),
+                      site="faulted" if (k[0] in touched or fired) else "fault-free")
                     break
             for k, t in expect.items():
                 if k not in got and k[0] not in touched:
